@@ -643,6 +643,7 @@ pub struct UnitDef {
 
 const N_LO: &[usize] = &[1, 2, 3, 4, 5, 6, 7, 8, 9, 12, 15, 16];
 const N_HI: &[usize] = &[17, 24, 31, 32, 33, 47, 48, 64, 65, 128, 256, 1024];
+const N_MORE: &[usize] = &[10, 11, 13, 14, 20, 23, 40, 63, 100, 512];
 const N_RED: &[usize] = &[1, 2, 3, 5, 8, 9, 16, 17, 32, 33, 64, 128];
 const N_ZOO: &[usize] = &[4, 8, 16, 32, 64, 128, 256, 1024];
 const N_Q: &[usize] = &[16, 32, 48, 64, 128, 256];
@@ -652,6 +653,7 @@ pub fn units() -> Vec<UnitDef> {
     vec![
         UnitDef { pkg: "u_t0a", iface: "t0", caps: &[0], ns: N_LO },
         UnitDef { pkg: "u_t0b", iface: "t0", caps: &[0], ns: N_HI },
+        UnitDef { pkg: "u_t0c", iface: "t0", caps: &[0], ns: N_MORE },
         UnitDef { pkg: "u_t1a", iface: "t1", caps: &[0], ns: N_LO },
         UnitDef { pkg: "u_t1b", iface: "t1", caps: &[0], ns: N_HI },
         UnitDef { pkg: "u_t2", iface: "t2", caps: &[0], ns: N_RED },
